@@ -57,6 +57,11 @@ EXTRA += [
 ]
 
 
+# members read by the first iterable of a comprehension / by a lambda default written in the class body, in every placement
+EXTRA += [gen_class.class_program("", False, False, 0, "member-in-inner", pl) for pl in ("module", "function", "class")]
+EXTRA += [gen_class.class_program("B", True, False, 1, "member-in-inner", "function")]
+
+
 def run(chk, build, replay=None):
     common.standard_proof_part(chk, build, VFILES)
     chk.trusted += [
